@@ -20,7 +20,7 @@ CHECKS = {
  "C01": dict(
    category="exploration",
    technique="differential testing VM vs WASM over type-directed generated programs and mutated shipped sources, with tape shrinking",
-   text="Thousands (quick) / >100k (thorough) of generated core-language programs and mutated shipped sources are compiled on both backends and driven sample by sample through the DspRuntime protocol with generated input streams; accept/reject, channel counts and every output word are compared bitwise. Sampled exploration of an infinite program space; sixteen recorded findings restrict the generator (each switch is listed in evidence) and are pinned by replays.",
+   text="Thousands (quick) / >100k (thorough) of generated core-language programs and mutated shipped sources are compiled on both backends and driven sample by sample through the DspRuntime protocol with generated input streams; accept/reject, channel counts and every output word are compared bitwise. Sampled exploration of an infinite program space; the open recorded findings restrict the generator (each switch is listed in evidence) and are pinned by replays.",
    note="Trusted: the harness drives both runtimes through the same public DspRuntime calls the audio drivers use. The searched space excludes the program shapes of the open known findings; a failure whose shrunk program still contains a tuple/record is attributed to the umbrella finding C01-wasm-aggregates.",
    design="2.C01"),
  "C04": dict(
